@@ -161,14 +161,34 @@ def value_is_rlp_of(an, term, argidx):
             if not (dexpr.k == "call" and dexpr.a[0].name in ("new", "with_capacity") and "BytesMut" in dexpr.a[0].fn):
                 return {"kind": "unknown", "expr": e}
             enc = [m for m in muts if m["kind"] == "mutcall"]
-            if len(enc) != 1 or len(muts) != 1:
+            if not enc or len(enc) != len(muts):
                 return {"kind": "unknown", "expr": e, "why": "buffer filled by %d mutating events" % len(muts)}
-            t = enc[0]["term"]
-            if not (t.callee and t.callee.name == "encode" and (t.callee.trait or "").endswith("alloy_rlp::Encodable") and enc[0]["arg"] == 1):
-                return {"kind": "unknown", "expr": e, "why": "buffer not filled by Encodable::encode"}
-            v = strip(an.operand_expr(t.args[0], enc[0]["bb"], enc[0]["idx"]))
-            ty = t.callee.self_ty["s"] if t.callee.self_ty else "?"
-            return {"kind": "rlp", "value": v, "ty": ty, "site": t.sp}
+            for m in enc:
+                t = m["term"]
+                if not (t.callee and t.callee.name == "encode" and (t.callee.trait or "").endswith("alloy_rlp::Encodable") and m["arg"] == 1):
+                    return {"kind": "unknown", "expr": e, "why": "buffer not filled by Encodable::encode"}
+            g = an.cfg
+            if len(enc) > 1:
+                # several encoders are fine when exactly one runs on every path:
+                # pairwise exclusive, and together they cut every path from the
+                # buffer's creation to its use
+                blocks = [m["bb"] for m in enc]
+                for i1, b1 in enumerate(blocks):
+                    for b2 in blocks[i1 + 1:]:
+                        if b1 == b2 or g.reaches(b1, b2) or g.reaches(b2, b1):
+                            return {"kind": "unknown", "expr": e, "why": "buffer may be filled more than once"}
+                use_bb = bbidx
+                if use_bb in g.reach(d[0], avoid=tuple(blocks)) and d[0] not in blocks:
+                    return {"kind": "unknown", "expr": e, "why": "buffer may reach its use without being filled"}
+            vals = []
+            tys = set()
+            for m in enc:
+                t = m["term"]
+                vals.append(strip(an.operand_expr(t.args[0], m["bb"], m["idx"])))
+                tys.add(t.callee.self_ty["s"] if t.callee.self_ty else "?")
+            v = vals[0] if len(vals) == 1 else E("phi", vals)
+            ty = tys.pop() if len(tys) == 1 else "mixed:" + "|".join(sorted(tys))
+            return {"kind": "rlp", "value": v, "ty": ty, "site": enc[0]["term"].sp}
         if cur.k == "call" and cur.a[0].name in ("from", "into", "clone", "to_vec") and cur.a[1] and cur.a[0].krate in ("bytes", "core", "alloc", "std"):
             cur = strip(cur.a[1][0])
             continue
